@@ -20,6 +20,7 @@ import (
 	"google.golang.org/grpc"
 	"google.golang.org/grpc/codes"
 	"google.golang.org/grpc/credentials/insecure"
+	"google.golang.org/grpc/metadata"
 	"google.golang.org/grpc/status"
 	"google.golang.org/grpc/test/bufconn"
 )
@@ -31,28 +32,31 @@ type faultPlan struct {
 	mu       sync.Mutex
 	Faults   map[string][]string `json:"faults"` // "stage:segment" -> fault kind per attempt ("" = none)
 	attempts map[string]int
+	pending  map[string][]string
 	calls    int
 	Log      []string `json:"log"` // "stage:segment#attempt=kind"
 }
 
+// next: which fault (if any) hits this ProcessRange call.  Faults["#k"] = kinds: the job reached by the k-th call of the
+// request receives kinds[0] now and kinds[1..] on its following attempts (consecutive faults on the SAME job).
 func (p *faultPlan) next(stage uint32, segment uint64) string {
 	p.mu.Lock()
 	defer p.mu.Unlock()
 	key := fmt.Sprintf("%d:%d", stage, segment)
 	if p.attempts == nil {
 		p.attempts = map[string]int{}
+		p.pending = map[string][]string{}
 	}
 	i := p.attempts[key]
 	p.attempts[key] = i + 1
-	kind := ""
-	if l := p.Faults[key]; i < len(l) {
-		kind = l[i]
-	}
-	// faults addressed by the global order of ProcessRange calls ("#<n>")
-	if k, ok := p.Faults[fmt.Sprintf("#%d", p.calls)]; ok && kind == "" && len(k) > 0 {
-		kind = k[0]
+	if k, ok := p.Faults[fmt.Sprintf("#%d", p.calls)]; ok && len(p.pending[key]) == 0 {
+		p.pending[key] = append([]string{}, k...)
 	}
 	p.calls++
+	kind := ""
+	if q := p.pending[key]; len(q) > 0 {
+		kind, p.pending[key] = q[0], q[1:]
+	}
 	p.Log = append(p.Log, fmt.Sprintf("%s#%d=%s", key, i, kind))
 	return kind
 }
@@ -101,6 +105,9 @@ func (c *faultClient) ProcessRange(ctx context.Context, in *pbssinternal.Process
 		return nil, status.Error(codes.Unavailable, "no healthy upstream (injected)")
 	case "overloaded":
 		return nil, status.Error(codes.Unavailable, "service currently overloaded (injected)")
+	case "server_send_fails":
+		// the connection drops while the job runs: tier2 notices it when it sends its first progress message
+		ctx = metadata.AppendToOutgoingContext(ctx, "verif-fail-send", "1")
 	}
 	cctx, cancel := context.WithCancel(ctx)
 	st, err := c.inner.ProcessRange(cctx, in, opts...)
@@ -114,7 +121,12 @@ func (c *faultClient) ProcessRange(ctx context.Context, in *pbssinternal.Process
 // startTier2 serves the real Tier2Service over bufconn; returns a client factory for work.NewRemoteWorker.
 func startTier2(plan *faultPlan) (client.InternalClientFactory, func()) {
 	lis := bufconn.Listen(1 << 20)
-	srv := grpc.NewServer()
+	srv := grpc.NewServer(grpc.StreamInterceptor(func(srv any, ss grpc.ServerStream, info *grpc.StreamServerInfo, handler grpc.StreamHandler) error {
+		if md, ok := metadata.FromIncomingContext(ss.Context()); ok && len(md.Get("verif-fail-send")) > 0 {
+			return handler(srv, &failingServerStream{ServerStream: ss})
+		}
+		return handler(srv, ss)
+	}))
 	svc := service.TestNewServiceTier2(false, func(ctx context.Context, h bstream.Handler, start int64, stop uint64, _ string, _ bool, _ bool, _ *zap.Logger, _ ...bsstream.Option) (service.Streamable, error) {
 		return &linearStream{h: h, start: uint64(start), end: stop}, nil
 	})
@@ -132,7 +144,15 @@ func startTier2(plan *faultPlan) (client.InternalClientFactory, func()) {
 	return factory, func() { srv.Stop(); lis.Close() }
 }
 
-var transientKinds = []string{"unavailable_before_call", "dropped_midway", "overloaded", "dropped_after_files_written"}
+type failingServerStream struct {
+	grpc.ServerStream
+}
+
+func (f *failingServerStream) SendMsg(m any) error {
+	return status.Error(codes.Unavailable, "transport is closing (injected on the server side)")
+}
+
+var transientKinds = []string{"unavailable_before_call", "dropped_midway", "overloaded", "dropped_after_files_written", "server_send_fails", "server_send_fails", "server_send_fails"}
 
 func runFaults(a *args, r *rand.Rand, root string, i int) {
 	// (a) transient faults: up to 3, placed on random jobs/attempts of a cold production run
@@ -152,8 +172,12 @@ func runFaults(a *args, r *rand.Rand, root string, i int) {
 		plan := &faultPlan{Faults: map[string][]string{}}
 		nf := 1 + r.Intn(3)
 		for f := 0; f < nf; f++ {
-			key := fmt.Sprintf("#%d", r.Intn(9)) // the n-th ProcessRange call of the request, whatever job it is (retries included)
+			key := fmt.Sprintf("#%d", r.Intn(6)) // the n-th ProcessRange call of the request, whatever job it is (retries included)
 			plan.Faults[key] = []string{transientKinds[r.Intn(len(transientKinds))]}
+			if k == 1 && f == 0 { // all three faults on consecutive attempts of the same job
+				plan.Faults[key] = []string{transientKinds[r.Intn(len(transientKinds))], transientKinds[r.Intn(len(transientKinds))], transientKinds[r.Intn(len(transientKinds))]}
+				break
+			}
 		}
 		emitFaultRun(a, env, cfg, plan, -1)
 		os.RemoveAll(env.dir)
